@@ -147,12 +147,22 @@ end Jade.Sys
 
 namespace Jade.Sys
 
+def batchActiveF (sl : Hid → Option BSt) (b : Batch) : Bool :=
+  match b.hid with
+  | some h => (match sl h with
+    | some .pending => true
+    | some .running => true
+    | _ => false)
+  | none => false
+
+theorem batchActive_eq (s : Sys) : batchActive s = batchActiveF s.slurm := by
+  funext b; simp only [batchActive, batchActiveF, activeB]; rfl
+
 theorem capInv_cap_sbatch {s s' : Sys} {p : Pid} {jobs : List JobId} {hid : Option Hid} (hi : CapInv s)
     (h : step s (.sbatch p jobs hid) = some s') : activeCount s' ≤ s'.sc.maxNodes := by
   have hsc : s'.sc = s.sc := by
     step_cases h <;> frame_all <;> rfl
   rw [hsc]
-  -- the guard: p is the marked role holder with a non-full queue
   simp only [step] at h
   split at h
   case h_2 => cases h
@@ -177,50 +187,28 @@ theorem capInv_cap_sbatch {s s' : Sys} {p : Pid} {jobs : List JobId} {hid : Opti
         · simpa [trackedIds, hhs] using ht
         · exact absurd ho hno
       have hlt : x.out.length < s.sc.maxNodes := hg.2.2.2.2.1
-      cases h
-      -- count in the new state: old batches keep their activity, the new one adds at most one
       have hfr := hg.2.2.2.2.2.2
-      unfold activeCount
-      simp only [setSub_fields, List.filter_append, List.length_append]
-      have hold : ((s.batches.filter (batchActive (setSub { s with
-            batches := s.batches ++ [{ bid := x.bidx, owner := p, jobs := jobs, handed := x.loc.blk, hid := hid }],
-            slurm := fun k => if hid = some k then some .pending else s.slurm k,
-            lateSbatch := s.lateSbatch || s.disk.canceled || s.disk.complete } p
-            { x with pend := x.pend ++ jobs, bidx := x.bidx + 1,
-                     out := match hid with | some k => x.out ++ [k] | none => x.out }))).length)
-          ≤ (s.batches.filter (batchActive s)).length := by
+      have hknown := hi.node.hidKnown
+      cases h
+      simp only [activeCount, batchActive_eq, setSub_fields, List.filter_append, List.length_append] at hle ⊢
+      have hold : (s.batches.filter (batchActiveF (fun k => if hid = some k then some .pending else s.slurm k))).length
+          ≤ (s.batches.filter (batchActiveF s.slurm)).length := by
         apply filter_length_mono
         intro b hb hact
-        unfold batchActive at *
+        unfold batchActiveF at *
         split at hact
         · next k hk =>
-          rw [hk]
-          simp only [activeB, setSub_fields] at hact ⊢
           by_cases hkk : hid = some k
-          · -- the new id was unknown to the scheduler, but b's id is known: impossible
-            exfalso
-            have hknown := hi.node.hidKnown b hb k hk
+          · exfalso
+            have h1 := hknown b hb k hk
             rw [hkk] at hfr
             have := (freshHid_some_iff s x k).1 hfr
-            rw [this.1] at hknown; cases hknown
+            rw [this.1] at h1; cases h1
           · simpa [hkk] using hact
         · cases hact
-      have hnew : ([({ bid := x.bidx, owner := p, jobs := jobs, handed := x.loc.blk, hid := hid } : Batch)].filter
-          (batchActive (setSub { s with
-            batches := s.batches ++ [{ bid := x.bidx, owner := p, jobs := jobs, handed := x.loc.blk, hid := hid }],
-            slurm := fun k => if hid = some k then some .pending else s.slurm k,
-            lateSbatch := s.lateSbatch || s.disk.canceled || s.disk.complete } p
-            { x with pend := x.pend ++ jobs, bidx := x.bidx + 1,
-                     out := match hid with | some k => x.out ++ [k] | none => x.out }))).length ≤ 1 := by
-        have := List.length_filter_le (batchActive (setSub { s with
-            batches := s.batches ++ [{ bid := x.bidx, owner := p, jobs := jobs, handed := x.loc.blk, hid := hid }],
-            slurm := fun k => if hid = some k then some .pending else s.slurm k,
-            lateSbatch := s.lateSbatch || s.disk.canceled || s.disk.complete } p
-            { x with pend := x.pend ++ jobs, bidx := x.bidx + 1,
-                     out := match hid with | some k => x.out ++ [k] | none => x.out }))
-          [({ bid := x.bidx, owner := p, jobs := jobs, handed := x.loc.blk, hid := hid } : Batch)]
-        simpa using this
-      unfold activeCount at hle
+      have hnew := List.length_filter_le (batchActiveF (fun k => if hid = some k then some .pending else s.slurm k))
+        [({ bid := x.bidx, owner := p, jobs := jobs, handed := x.loc.blk, hid := hid } : Batch)]
+      simp only [List.length_cons, List.length_nil] at hnew
       omega
 
 theorem capInv_step {s s' : Sys} {op : Op} (hi : CapInv s) (h : step s op = some s') : CapInv s' := by
